@@ -22,11 +22,12 @@ type CtorSummary struct {
 }
 
 // prov computes where a value comes from, as a set of root descriptors:
-//   "<param>[.field…]"      a parameter (Item fields spelled out: op.Pos, op.Typ, name.Val)
-//   "nil", "const:<v>"      constants
-//   "lookahead[…]"          anything loaded from p.yyParser (the look-ahead item)
-//   "lex[…]"                anything loaded from p.lex
-//   "call:<name>"           an opaque call result
+//
+//	"<param>[.field…]"      a parameter (Item fields spelled out: op.Pos, op.Typ, name.Val)
+//	"nil", "const:<v>"      constants
+//	"lookahead[…]"          anything loaded from p.yyParser (the look-ahead item)
+//	"lex[…]"                anything loaded from p.lex
+//	"call:<name>"           an opaque call result
 func prov(v ssa.Value, out map[string]bool, seen map[ssa.Value]bool) {
 	if seen[v] {
 		return
@@ -340,7 +341,8 @@ func (cs *CtorSummary) String() string {
 
 // FieldFlow composes the grammar action-flow with the constructor summaries:
 // for production p, "Struct.Field" -> set of sources expressed over the production:
-//   "$k" / "$k.Sel"  the k-th RHS symbol (1-based), "nil", "const:…", "lookahead…", "$$…"
+//
+//	"$k" / "$k.Sel"  the k-th RHS symbol (1-based), "nil", "const:…", "lookahead…", "$$…"
 func (g *Gram) FieldFlow(p *Production, ctors map[string]*CtorSummary) (map[string]map[string]bool, []string) {
 	ai := g.Actions[p.Num]
 	res := map[string]map[string]bool{}
